@@ -168,6 +168,7 @@ struct Slot {
     uint64_t pending_pill_first_gseq = 0;
     bool pill_overflowed = false;
     uint64_t batch_changed_gseq = 0, last_delivery_gseq = 0;
+    int tb_st_at_set = 0; int tb_enter_running_at_set = 0;   // C18: a bucket set on a module at rest gets no refill until the module runs
     uint64_t tb_set_gseq = 0;            // event number at which the current token bucket was set
     uint64_t tb_charged_max = 0;         // upper bound on the tokens used since then (every rate-limited call that may have been charged)
     uint64_t batch_timer_armed_at = 0;   // simulated time at which the batch time-out timer was last (re)armed; 0 = unknown
